@@ -169,6 +169,19 @@ def STP_set_id (prio ext extL mac : Mem) (v X : Nat) : Nat :=
   stP extL (ext_id &&& 0xff) X3
 end STP
 
+section DHCPv6   -- src/dhcpv6.cpp:174-179, include/tins/dhcpv6.h:464 ; uint8_t header_data_[4]
+/-- `return (header_data_[1] << 16) | (header_data_[2] << 8) | header_data_[3];` -/
+def DHCPv6_get_transaction_id (X : Nat) : Nat :=
+  (((memGet .be 4 DHCPv6_header_data__1 X) <<< 16) ||| ((memGet .be 4 DHCPv6_header_data__2 X) <<< 8)) |||
+    (memGet .be 4 DHCPv6_header_data__3 X)
+/-- `uint32_t id_32 = id; header_data_[1] = id_32 >> 16; header_data_[2] = id_32 >> 8; header_data_[3] = id_32 & 0xff;` -/
+def DHCPv6_set_transaction_id (v X : Nat) : Nat :=
+  let id_32 := v % 4294967296
+  let X1 := memSet .be 4 DHCPv6_header_data__1 (id_32 >>> 16) X
+  let X2 := memSet .be 4 DHCPv6_header_data__2 (id_32 >>> 8) X1
+  memSet .be 4 DHCPv6_header_data__3 (id_32 &&& 0xff) X2
+end DHCPv6
+
 section Dot11   -- little-endian view; src/dot11/dot11_mgmt.cpp:85-100, dot11_data.cpp:99-113, dot11_control.cpp:166-233
 /-- `return w & 0xf;`  (frag_num, bar_control, fragment_number; `w` a host uint16_t member) -/
 def LE16_get_low4 (m : Mem) (X : Nat) : Nat := (memGet .le 0 m X) &&& 0xf
@@ -209,6 +222,7 @@ def table : List CustomAcc := [
   ⟨"STP", "max_age", 32, 16, 256, STP_get_timer STP_max_age, STP_set_timer STP_max_age⟩,
   ⟨"STP", "hello_time", 16, 16, 256, STP_get_timer STP_hello_time, STP_set_timer STP_hello_time⟩,
   ⟨"STP", "fwd_delay", 0, 16, 256, STP_get_timer STP_fwd_delay, STP_set_timer STP_fwd_delay⟩,
+  ⟨"DHCPv6", "transaction_id", 0, 24, 1, DHCPv6_get_transaction_id, DHCPv6_set_transaction_id⟩,
   ⟨"Dot11Data", "frag_num", 176, 4, 1, LE16_get_low4 Dot11Data_frag_seq, LE16_set_low4 Dot11Data_frag_seq⟩,
   ⟨"Dot11Data", "seq_num", 180, 12, 1, LE16_get_hi12 Dot11Data_frag_seq, LE16_set_hi12 Dot11Data_frag_seq⟩,
   ⟨"Dot11Beacon", "frag_num", 176, 4, 1, LE16_get_low4 Dot11Beacon_frag_seq, LE16_set_low4 Dot11Beacon_frag_seq⟩,
